@@ -4,7 +4,8 @@
    approximations, see Sem/QInst.v) on the quadrature tables REGENERATED this run (Run.GenQuad)
    with the angle formula the CURRENT source uses (Run.GenAngle).  Definitions only. *)
 From Coq Require Import QArith Qabs ZArith String List Bool Qround Uint63.
-From Verif.Sem Require Import Field QInst Corr.
+From Bignums Require Import BigZ.
+From Verif.Sem Require Import Field QInst BInst Corr.
 From Verif.C18 Require Import Model QData.
 From Run Require Import GenQuad GenAngle.
 Import ListNotations.
@@ -76,6 +77,22 @@ Definition k_ok (kind k : Z) (c : cyld) : bool :=
   let x := qmax (qmin ((mult # 1) * (dyQ (cd_h c) / dyQ (cd_r c))) (hi # 1)) (lo # 1) in
   Qle_bool (Qabs ((k # 1) - x)) ((1 # 2) + e10 9).
 
+(* the same model run at the fast fixed-point instance (Sem/BInst.v: BigZ / 2^200, machine-word limbs):
+   exact-rational evaluation of the rotated rule and of the transmission integrand needs minutes per
+   case because numerators grow with every operation *)
+Definition BO : Fops := BOps.
+Definition bq (d : dy) : bigZ := b_ofQ (dyQ d).
+Definition vb (p : v3d) : vec BO := let '(x, y, z) := p in @mkvec BO (bq x) (bq y) (bq z).
+Definition cb (c : cyld) : cylinder BO := @mkcyl BO (vb (cd_axis c)) (vb (cd_base c)) (bq (cd_r c)) (bq (cd_h c)).
+Definition bdisk (t : list (Q * Q * Q)) : list (bigZ * bigZ * bigZ) :=
+  map (fun d => let '(x, y, w) := d in (b_ofQ x, b_ofQ y, b_ofQ w)) t.
+Definition bline (t : list (Q * Q)) : list (bigZ * bigZ) := map (fun d => let '(x, w) := d in (b_ofQ x, b_ofQ w)) t.
+Definition line_forB (kind k : Z) : option (list (bigZ * bigZ)) :=
+  if (kind =? 0)%Z then option_map bline (assocZ k leg_tables)
+  else option_map (fun t => cheb_line BO (bline t)) (assocZ k cheb_tables).
+Definition rule_forB (kind k : Z) : option (list (vec BO * bigZ)) :=
+  option_map (product_rule BO (bdisk (disk_for kind))) (line_forB kind k).
+
 Fixpoint qsumq (l : list Q) : Q := match l with [] => 0 | x :: l' => Qred (x + qsumq l') end.
 
 (* weights as observed: all positive; their sum = (disk sum)(line sum) r^2 h / 2 to 1e-12 *)
@@ -94,11 +111,12 @@ Definition weights_check (c : cyld) (kind k : Z) (ws : list dy) : string :=
 
 (* model vs implementation on selected points of the rule (index, point, weight) *)
 Definition quad_check (c : cyld) (kind k : Z) (obs : list (Z * v3d * dy)) : string :=
-  match rule_for kind k with
+  match rule_forB kind k with
   | None => "no-rule"
   | Some rule =>
       let cy := cq c in
-      let ml := quadrature QO src_angle_mode cy rule in
+      let ml := map (fun q : vec BO * bigZ => (@mkvec QO (b_toQ (vx (fst q))) (b_toQ (vy (fst q))) (b_toQ (vz (fst q))), b_toQ (snd q)))
+                    (quadrature BO src_angle_mode (cb c) rule) in
       let cen := center QO cy in
       let tol := e10 12 * qmax (cy_r cy) (cy_h cy)
                  + (4 # 10000000000000000) * (Qabs (vx cen) + Qabs (vy cen) + Qabs (vz cen)) in
@@ -116,10 +134,10 @@ Definition quad_check (c : cyld) (kind k : Z) (obs : list (Z * v3d * dy)) : stri
 
 (* model vs implementation: one element of the transmission map *)
 Definition trans_check (c : cyld) (kind k : Z) (mu to_det : dy) (beam det : v3d) (T : dy) : string :=
-  match rule_for kind k with
+  match rule_forB kind k with
   | None => "no-rule"
   | Some rule =>
-      let m := transmission_map QO src_angle_mode (cq c) rule (dyQ mu) (dyQ to_det) (vq beam) (vq det) in
+      let m := b_toQ (transmission_map BO src_angle_mode (cb c) rule (bq mu) (bq to_det) (vb beam) (vb det)) in
       if rel_close (dyQ T) m (e10 9) then "" else "transmission-model"
   end.
 
